@@ -37,6 +37,7 @@ CfgOf(e) ==
     clones    |-> e.kind \in CloneKinds,
     nthreads  |-> e.threads,
     extra     |-> IF "revive" \in DOMAIN e THEN e.revive ELSE 0,
+    faults    |-> e.pnext + e.dpanic + e.cpanic,      \* a fault other than a panicking user closure is armed
     kind      |-> e.kind ]
 
 E == Rec[l]
@@ -82,7 +83,7 @@ TVisit ==
   /\ IsEvent("Visit")
   /\ LET act == {j \in DOMAIN mon : mon[j].op[E.t] # ""}      \* the iterator whose composite op is in flight on this thread
          i == IF act = {} THEN 0 ELSE CHOOSE j \in act : TRUE IN
-     Advance(Upd(i, MVisit(mon[i], E.t, IF IsInt(E.idx) THEN E.idx ELSE -9, E.val, E.pidx)))
+     Advance(Upd(i, MVisitU(mon[i], E.t, IF IsInt(E.idx) THEN E.idx ELSE -9, E.val, E.pidx, "unwind" \in DOMAIN E)))
   /\ Count("Visit")
 
 TAtomic ==
@@ -146,7 +147,7 @@ Init ==
   /\ l = 1
   /\ run = -1
   /\ mon = (0 :> MonInit([len |-> 0, base |-> 0, fam |-> "counter", hint |-> "exact",
-                          consuming |-> FALSE, clones |-> FALSE, nthreads |-> 0, extra |-> 0, kind |-> ""]))
+                          consuming |-> FALSE, clones |-> FALSE, nthreads |-> 0, extra |-> 0, faults |-> 0, kind |-> ""]))
   /\ viol = {}
   /\ seen = [k \in {"Reset", "Call", "Ret", "Visit", "A", "NextEnter", "NextExit", "DropElem",
                     "CloneElem", "SrcCheck", "Mem", "Hang", "Abort", "End"} |-> 0]
